@@ -792,7 +792,13 @@ fn visit_fragment_spread<'a, V: Visitor<'a>>(
             .fragments
             .get(fragment_spread.node.fragment_name.node.as_str())
     {
-        visit_selection_set(v, ctx, &fragment.node.selection_set);
+        // the fragment's selection set is typed by its type condition, not by the place it is spread in
+        ctx.with_type(
+            ctx.registry
+                .types
+                .get(fragment.node.type_condition.node.on.node.as_str()),
+            |ctx| visit_selection_set(v, ctx, &fragment.node.selection_set),
+        );
     }
     v.exit_fragment_spread(ctx, fragment_spread);
 }
